@@ -43,6 +43,17 @@ func isGoatFunc(f string) bool {
 	return strings.HasPrefix(f, "github.com/avos-io/goat") && !strings.HasPrefix(f, "github.com/avos-io/goat/gen/")
 }
 
+// ownerFrame is the first frame of an access stack that belongs neither to the standard
+// library nor to a third-party module: the code whose memory access this is.
+func ownerFrame(s raceStack) string {
+	for _, f := range s.funcs {
+		if isGoatFunc(f) || strings.HasPrefix(f, "goatverif/") || strings.HasPrefix(f, "main.") {
+			return f
+		}
+	}
+	return ""
+}
+
 func outermostGoat(s raceStack) string {
 	for i := len(s.funcs) - 1; i >= 0; i-- {
 		if isGoatFunc(s.funcs[i]) {
@@ -79,17 +90,27 @@ func foldRaceLogs(a *agg, verifDir, propID string, seed int64) (raw, distinctGoa
 				raw++
 				st := parseRaceBlock(blk)
 				var inner, outer []string
-				goat := false
+				goatOwners, harnessOwners := 0, 0
 				for _, s := range st {
-					if g := innermostGoat(s); g != "" {
-						goat = true
-						inner = append(inner, g)
+					o := ownerFrame(s)
+					switch {
+					case isGoatFunc(o):
+						goatOwners++
+						inner = append(inner, o)
 						outer = append(outer, outermostGoat(s))
-					} else if len(s.funcs) > 0 {
+					case o != "":
+						harnessOwners++
+						inner = append(inner, o)
+						outer = append(outer, s.funcs[len(s.funcs)-1])
+					case len(s.funcs) > 0:
 						inner = append(inner, s.funcs[0])
 						outer = append(outer, s.funcs[len(s.funcs)-1])
 					}
 				}
+				// both accesses made by library code: the library's race. An access made by harness
+				// code (even when called from the library, e.g. a transport or a handler) makes it a
+				// harness bug, which fails the run instead of being blamed on the library.
+				goat := goatOwners > 0 && harnessOwners == 0
 				sort.Strings(inner)
 				key := "race@" + strings.Join(inner, "|")
 				if !goat {
